@@ -28,25 +28,48 @@ func NewNumericRangeSearcher(indexReader search.Reader,
 	min, max float64, inclusiveMin, inclusiveMax bool, field string,
 	boost float64, scorer search.Scorer, compScorer search.CompositeScorer,
 	options search.SearcherOptions) (search.Searcher, error) {
-	var minInt64 int64
+	// an infinite end is an unbounded end: nothing lies beyond it that an
+	// exclusive end could leave out
+	minInt64 := int64(math.MinInt64)
 	if math.IsInf(min, -1) {
-		minInt64 = math.MinInt64
+		inclusiveMin = true
 	} else {
 		minInt64 = numeric.Float64ToInt64(min)
 	}
-	var maxInt64 int64
+	maxInt64 := int64(math.MaxInt64)
 	if math.IsInf(max, 1) {
-		maxInt64 = math.MaxInt64
+		inclusiveMax = true
 	} else {
 		maxInt64 = numeric.Float64ToInt64(max)
 	}
+	return NewNumericRangeSearcherInt64(indexReader, minInt64, maxInt64, inclusiveMin, inclusiveMax,
+		field, boost, scorer, compScorer, options)
+}
 
-	// find all the ranges
-	if !inclusiveMin && minInt64 != math.MaxInt64 {
-		minInt64++
+// NewNumericRangeSearcherInt64 is NewNumericRangeSearcher for end points given
+// in the sortable int64 representation that numeric and date time fields index
+// (every int64 is an ordinary end point, the full range is math.MinInt64 to
+// math.MaxInt64 inclusive).
+func NewNumericRangeSearcherInt64(indexReader search.Reader,
+	minInt64, maxInt64 int64, inclusiveMin, inclusiveMax bool, field string,
+	boost float64, scorer search.Scorer, compScorer search.CompositeScorer,
+	options search.SearcherOptions) (search.Searcher, error) {
+	// turn exclusive ends into inclusive ones, an exclusive end at the
+	// far extreme leaves nothing to match
+	empty := false
+	if !inclusiveMin {
+		if minInt64 == math.MaxInt64 {
+			empty = true
+		} else {
+			minInt64++
+		}
 	}
-	if !inclusiveMax && maxInt64 != math.MinInt64 {
-		maxInt64--
+	if !inclusiveMax {
+		if maxInt64 == math.MinInt64 {
+			empty = true
+		} else {
+			maxInt64--
+		}
 	}
 
 	var fieldDict segment.DictionaryLookup
@@ -64,7 +87,10 @@ func NewNumericRangeSearcher(indexReader search.Reader,
 	}
 
 	// FIXME hard-coded precision, should match field declaration
-	termRanges := splitInt64Range(minInt64, maxInt64, 4)
+	var termRanges termRanges
+	if !empty {
+		termRanges = splitInt64Range(minInt64, maxInt64, 4)
+	}
 	terms := termRanges.Enumerate(isIndexed)
 	if fieldDict != nil {
 		err = fieldDict.Close()
